@@ -28,7 +28,7 @@ bool c06_small_op(hp_line *l);   // c06_small.c
 
 // Link-time interposer (-Wl,--wrap=lzma_simple_coder_init, no source change): tells whether a BCJ filter
 // took part in a run, which is what decides how much of a rejected input's result the property fixes.
-static bool g_bcj_used;
+static volatile bool g_bcj_used;   // written by worker threads too (a plain flag; only ever set to true during a run)
 struct lzma_next_coder_s; struct lzma_filter_info_s;
 extern lzma_ret __real_lzma_simple_coder_init(void *next, const lzma_allocator *allocator, const void *filters,
 		size_t (*filter)(void *simple, uint32_t now_pos, bool is_encoder, uint8_t *buffer, size_t size),
